@@ -211,7 +211,21 @@ func PersonName() *rapid.Generator[string] {
 	return rapid.Custom(func(t *rapid.T) string {
 		g := rapid.SampledFrom(Givens).Draw(t, "given")
 		s := rapid.SampledFrom(Surnames).Draw(t, "surname")
-		switch rapid.IntRange(0, 9).Draw(t, "nameform") {
+		switch rapid.IntRange(0, 11).Draw(t, "nameform") {
+		case 10:
+			// a long run of given names (66..180 bytes: past every small fixed-size buffer, below the
+			// 255 bytes of a file name)
+			out, want := g, rapid.IntRange(66, 150).Draw(t, "longgiven")
+			for len(out) < want {
+				out += " " + rapid.SampledFrom(Givens).Draw(t, "moregiven")
+			}
+			return out + " /" + s + "/"
+		case 11:
+			out, want := s, rapid.IntRange(66, 150).Draw(t, "longsurname")
+			for len(out) < want {
+				out += "-" + rapid.SampledFrom(Surnames).Draw(t, "moresurname")
+			}
+			return g + " /" + out + "/"
 		case 0:
 			return g
 		case 1:
@@ -334,7 +348,7 @@ func Graph(o GraphOpts) *rapid.Generator[*GraphBP] {
 		}
 		for i := 0; i < np; i++ {
 			p := &PersonBP{ID: fmt.Sprintf("%s%d", o.IDPrefix, i+1)}
-			nn := rapid.SampledFrom([]int{1, 1, 1, 1, 0, 2, 3}).Draw(t, "nnames")
+			nn := rapid.SampledFrom([]int{1, 1, 1, 1, 0, 2, 3, 1, 1, 5, 7}).Draw(t, "nnames")
 			for j := 0; j < nn; j++ {
 				p.Names = append(p.Names, Str(PersonName().Draw(t, "name")))
 			}
